@@ -105,3 +105,43 @@ def build_program(wd, main_src, link_cpp, repo=None, name='prog'):
     if r.returncode != 0:
         raise NativeError('program build failed:\n%s' % r.stderr[-3000:])
     return exe
+
+def build_gm2calc(repo=None):
+    """compile the command-line program gm2calc.x from the working tree (all library sources + src/gm2calc.cpp), cached by source hash"""
+    import glob, hashlib, concurrent.futures
+    repo = repo or REPO
+    srcs = sorted(glob.glob(os.path.join(repo, 'src', '*.cpp')) + glob.glob(os.path.join(repo, 'src', '*', '*.cpp')))
+    hdrs = sorted(glob.glob(os.path.join(repo, 'src', '*.h*')) + glob.glob(os.path.join(repo, 'src', '*', '*.h*')) + glob.glob(os.path.join(repo, 'include', 'gm2calc', '*')))
+    h = hashlib.sha1()
+    for f in srcs + hdrs:
+        h.update(f.encode()); h.update(open(f, 'rb').read())
+    cdir = os.path.join(WORK, 'cache', h.hexdigest()[:16])
+    exe = os.path.join(cdir, 'gm2calc.x')
+    if os.path.exists(exe):
+        return exe
+    os.makedirs(cdir, exist_ok=True)
+    # keep the cache small
+    root = os.path.join(WORK, 'cache')
+    for d in sorted(os.listdir(root), key=lambda d: os.path.getmtime(os.path.join(root, d)))[:-3]:
+        shutil.rmtree(os.path.join(root, d), ignore_errors=True)
+    ver = os.path.join(cdir, 'gm2calc')
+    os.makedirs(ver, exist_ok=True)
+    # gm2_version.h is generated by cmake: take version numbers from CMakeLists
+    vh = os.path.join(repo, 'include', 'gm2calc', 'gm2_version.h')
+    inc = includes(repo)
+    if not os.path.exists(vh):
+        with open(os.path.join(ver, 'gm2_version.h'), 'w') as f:
+            f.write('#define GM2CALC_VERSION "verif"\n#define GM2CALC_VERSION_MAJOR 2\n#define GM2CALC_VERSION_MINOR 0\n#define GM2CALC_VERSION_RELEASE 0\n')
+        inc = ['-I' + cdir] + inc
+    def comp(c):
+        o = os.path.join(cdir, os.path.relpath(c, repo).replace('/', '_') + '.o')
+        r = subprocess.run(['g++'] + CXXFLAGS + inc + ['-c', c, '-o', o], capture_output=True, text=True)
+        if r.returncode != 0:
+            raise NativeError('compile %s failed:\n%s' % (c, r.stderr[-2000:]))
+        return o
+    with concurrent.futures.ThreadPoolExecutor(max_workers=12) as ex:
+        objs = list(ex.map(comp, srcs))
+    r = subprocess.run(['g++'] + objs + ['-o', exe], capture_output=True, text=True)
+    if r.returncode != 0:
+        raise NativeError('link failed:\n%s' % r.stderr[-2000:])
+    return exe
